@@ -77,6 +77,25 @@ def load_baseline() -> dict[str, list[str]]:
 	return {}
 
 
+SOURCES_FILE = os.path.join(VERIF, 'baseline_sources.json')
+
+
+def current_sources() -> dict[str, str]:
+	"""sha1 of every repository file the VC generator read on this run."""
+	import hashlib
+	from . import source as _src
+	return {f: hashlib.sha1(m.text.encode('utf-8')).hexdigest() for f, m in _src._cache.items()}
+
+
+def changed_sources(prop: str) -> list[str]:
+	"""Files whose text differs from the committed baseline of this property (empty on the unchanged tree)."""
+	if not os.path.exists(SOURCES_FILE):
+		return []
+	base = json.load(open(SOURCES_FILE)).get(prop, {})
+	cur = current_sources()
+	return sorted(f for f in set(base) | set(cur) if f in base and base.get(f) != cur.get(f))
+
+
 def concretise(r: ObResult) -> dict[str, Any] | None:
 	if not r.res.model:
 		return None
@@ -240,6 +259,10 @@ def _main(prop: str, tier: str, seed: int, a: Any) -> int:
 		elif r.res.verdict == 'refuted' and (key in baseline or (r.ob.kind.startswith('raises') and f'{strip_inst(r.ob.func)}|raises-clause' in baseline)):
 			violations.append(Violation(prop, f'obligation discharged on the unchanged tree now has a counter-model: {r.ob.clause}', r.ob.func, r.ob.name, r.ob.clause, None,
 				native.detail if native else 'model not concretisable', (json.dumps(jsonable(r.res.model))[:1500] if r.res.model else '') + '\n' + r.res.detail[:1500], key))
+		elif r.res.verdict == 'unknown' and key in baseline and changed_sources(prop):
+			# discharged on the committed baseline, no longer discharged (after the serial retry) now that the source text differs: reported, marked as not refuted
+			violations.append(Violation(prop, f'obligation discharged on the unchanged tree is no longer discharged after the change of {", ".join(changed_sources(prop))[:200]} (no counter-model: not refuted): {r.ob.clause}',
+				r.ob.func, r.ob.name, r.ob.clause, None, 'no model', r.res.detail[:1500], key))
 		else:
 			undecided.append(f'{r.ob.name}: {r.res.verdict} ({r.res.detail[:120]})')
 	# ---- engine errors: function left the subset / disappeared -> bounded twin only
@@ -357,6 +380,9 @@ def _main(prop: str, tier: str, seed: int, a: Any) -> int:
 		keys |= {f'{f}|raises-clause' for f in funcs - bad_raises if find_contract(f) is not None}
 		bl[prop] = sorted(keys)
 		json.dump(bl, open(BASELINE_FILE, 'w'), indent=1, ensure_ascii=False)
+		srcs = json.load(open(SOURCES_FILE)) if os.path.exists(SOURCES_FILE) else {}
+		srcs[prop] = current_sources()
+		json.dump(srcs, open(SOURCES_FILE, 'w'), indent=1, sort_keys=True)
 	print(f'{prop}: {n_ok}/{n_ob} obligations discharged ({by_backend}), {len(rep.functions)} functions under contract, {len(lemmas)} lemmas, '
 		f'{sum(b["cases"] for b in bounded)} bounded-twin cases, {len(closed)} closed obligations, {len(undecided)} undecided, wall {time.time() - t_start:.1f}s')
 	if a.verbose or undecided:
